@@ -43,7 +43,7 @@ def stream_argcombo(ctx):
                 _, CX = c06.regime_corpus(lt, dtype)
                 _, CA = c06.regime_corpus(alg, dtype)
                 n = min(CX.shape[0], CA.shape[0])
-                for alpha in ((1, 2, -0.5, 0, 1e-9) if not ctx.quick else (2, -0.5, 0)):
+                for alpha in ((1, 2, -0.5, 0, 1e-9, -3) if not ctx.quick else (2, -0.5, 0, -3)):
                     case = {"kind": "argcombo", "what": "add-alpha", "lt": lt, "dtype": dtype, "alpha": alpha}
                     _note(ctx, "argcombo.add", lt, dtype, alpha)
                     X = c06._lie(CX[:n].clone(), lt)
@@ -75,7 +75,7 @@ def stream_argcombo(ctx):
             for dtype in ("float64", "float32"):
                 names, CX = c06.regime_corpus(lt, dtype)
                 X = c06._lie(CX.clone(), lt)
-                for eps in ((2e-4, 1e-2, 0.3, 0.0, 1e-7) if not ctx.quick else (2e-4, 1e-2, 0.0)):
+                for eps in ((2e-4, 1e-2, 0.3, 0.0, 1e-7, -1e-3) if not ctx.quick else (2e-4, 1e-2, 0.0, -1e-3)):
                     case = {"kind": "argcombo", "what": "euler-eps", "lt": lt, "dtype": dtype, "eps": eps}
                     _note(ctx, "argcombo.euler", lt, dtype, eps)
                     try:
@@ -115,7 +115,8 @@ def stream_argcombo(ctx):
                         except Exception as e:
                             ctx.fail(case, f"raises: quat2unit(eps={eps}) on {lt} raises {type(e).__name__}: {str(e)[:80]}")
         # --- constructors: sigma forms x requires_grad x dtype x lshape, all documented combinations
-        sig = {"SO3": [1.0, 0.3], "so3": [1.0, 2], "SE3": [1.0, (0.5, 2.0), (0.1, 0.2, 0.3, 2.0)], "se3": [0.7, (0.5, 2.0), (0.1, 0.2, 0.3, 2.0)],
+        # sigma: positive, zero and negative values (the sign of a standard deviation is a convention, not a validity condition)
+        sig = {"SO3": [1.0, 0.3, 0.0, -0.7], "so3": [1.0, 2, 0, -1.5], "SE3": [1.0, (0.5, 2.0), (0.1, 0.2, 0.3, 2.0)], "se3": [0.7, (0.5, 2.0), (0.1, 0.2, 0.3, 2.0)],
                "RxSO3": [1.0, (0.5, 0.1)], "rxso3": [1, (0.5, 0.1)], "Sim3": [1.0, (0.5, 1.0, 0.1), (0.1, 0.2, 0.3, 1.0, 0.2)],
                "sim3": [1.0, (0.5, 1.0, 0.1), (0.1, 0.2, 0.3, 1.0, 0.2)]}
         for lt in LTYPES:
